@@ -13,9 +13,11 @@ static RegisterAccess cust_read(const RegisterArea *a, RegisterAtom *dest, Regis
     memcpy(dest, g_store[area_index(a)] + off, n * sizeof(RegisterAtom));
     return rv;
 }
+static int g_fail_code, g_fail_hit;   /* op 13: the write driver of callback-backed areas fails with this code, storing nothing */
 static RegisterAccess cust_write(RegisterArea *a, const RegisterAtom *src, RegisterOffset off, RegisterOffset n)
 {
     RegisterAccess rv = REG_ACCESS_RESULT_INIT;
+    if (g_fail_code) { g_fail_hit = 1; rv.code = (RegisterAccessCode)g_fail_code; rv.address = a->base + off; return rv; }
     memcpy(g_store[area_index(a)] + off, src, n * sizeof(RegisterAtom));
     return rv;
 }
@@ -152,6 +154,14 @@ void run_reg(const char *op)
             RegisterAccess r = code == 1 ? register_set(&t, (RegisterHandle)A(0), v) : code == 2 ? register_set_unsafe(&t, (RegisterHandle)A(0), v)
                              : code == 4 ? register_bit_set(&t, (RegisterHandle)A(0), v) : register_bit_clear(&t, (RegisterHandle)A(0), v);
             out_s(cls(r.code));
+            break; }
+        case 13: {
+            /* idx type bits checked code: a typed set while the write driver of callback-backed areas fails with <code> */
+            RegisterValue v; v.type = type_of(A(1)); set_bits(&v.value, v.type, A(2));
+            g_fail_code = (int)A(4); g_fail_hit = 0;
+            RegisterAccess r = A(3) ? register_set(&t, (RegisterHandle)A(0), v) : register_set_unsafe(&t, (RegisterHandle)A(0), v);
+            out_s(g_fail_hit && (int)r.code == g_fail_code ? "BACKEND-FAILED" : cls(r.code));
+            g_fail_code = 0;
             break; }
         case 3: {
             RegisterValue v; memset(&v, 0, sizeof v);
